@@ -46,6 +46,16 @@ def symbols_of(S, polys):
     return sorted(S.V.names[i] for i in used if S.V.kind[i] not in ("unit", "const", "pi"))
 
 
+def _concrete(replay, model):
+    """run a replay on plain floats with no current symbolic session (the lifting shims fall back to the library's own behaviour)"""
+    cur = sx.CUR
+    sx.CUR = None
+    try:
+        return replay(model)
+    finally:
+        sx.CUR = cur
+
+
 def prove(S, name, A, B=None, timeout=30, tol=None, replay=None, signature=None, extra=(), detail=None, twin=True):
     """Returns one obligation record.  replay(model)->(bool reproduces, payload) is run on `sat`."""
     t0 = time.time()
@@ -79,7 +89,7 @@ def prove(S, name, A, B=None, timeout=30, tol=None, replay=None, signature=None,
             rec["detail"] = "sat model but no replay available"
             return rec
         try:
-            ok, payload = replay(r.model)
+            ok, payload = _concrete(replay, r.model)
         except Exception as e:  # replay itself failed: not a verdict
             rec["status"] = INCONCLUSIVE
             rec["detail"] = f"replay raised {e!r}"
@@ -138,7 +148,7 @@ def prove_claim(S, name, zclaim, replay=None, signature=None, timeout=60, symbol
             rec["detail"] = "sat model but no replay available"
             return rec
         try:
-            ok, payload = replay(model)
+            ok, payload = _concrete(replay, model)
         except Exception as e:
             rec["status"] = INCONCLUSIVE
             rec["detail"] = f"replay raised {e!r}"
@@ -173,6 +183,14 @@ def run_instance(name, build, consume, D=None, default_D=2, abstract=False, max_
     except HarnessError as e:
         return [harness_error(name, e)]
     for i, (S, val) in enumerate(paths):
+        if S.pathcond and len(paths) > 1:
+            # a fork is taken when the quick feasibility query answers sat OR unknown; a path whose full condition is refuted
+            # with a larger budget is unreachable and carries no obligations
+            try:
+                if sx.satisfiable(S, timeout_s=20) == "unsat":
+                    continue
+            except Exception:  # noqa: BLE001 - the check is an optimisation only
+                pass
         try:
             recs.extend(consume(S, val, i) or [])
         except sx.Unsupported as e:
